@@ -70,6 +70,8 @@ pub fn exec(db: &dyn IndexDatabase, range: FileRange) -> Option<Vec<InlayHint>> 
             _ => {}
         }
     }
+    // a symbol that overlaps the range brings all its hints with it: keep the ones inside
+    hints.retain(|hint| range.range.start() <= hint.position && hint.position <= range.range.end());
     Some(hints)
 }
 
